@@ -1,12 +1,766 @@
-//! C09 — not built yet (stub).
+//! C09 — a crash at any persistence step never bricks or corrupts the chain.
+//!
+//! Engine E3: for a scenario (prepared directory + in-flight action) a trace
+//! run counts the durable steps N (cfg(grin_verif) crash points); then for
+//! every n in 1..=N a child process runs the action on a copy of the
+//! directory and dies at step n, and a second child reopens the directory
+//! with Chain::init (the repository's own recovery path), validates,
+//! re-delivers the scenario's chain above the reopened head and reports.
 
 use crate::engine::*;
-use serde_json::Value;
+use crate::props::c02::{base, clone_world};
+use crate::world::gen::*;
+use crate::world::*;
+use grin_chain::types::Options;
+use grin_chain::Chain;
+use grin_core::core::hash::{Hash, Hashed};
+use grin_core::core::{Block, BlockHeader};
+use grin_core::ser::{self, ProtocolVersion};
+use grin_util::ToHex;
+use proptest::prelude::*;
+use serde_derive::{Deserialize, Serialize};
+use serde_json::{json, Value};
+use std::collections::BTreeSet;
+use std::path::{Path, PathBuf};
+use std::process::Command;
 
-pub fn run(_ctx: &Ctx) -> HResult<()> {
-	Err(HarnessError("C09 check not built yet".into()))
+#[derive(Clone, Debug, Serialize, Deserialize, PartialEq)]
+pub enum Action {
+	/// deliver these blocks in order through process_block
+	Blocks,
+	/// deliver the headers of the action blocks through sync_block_headers
+	Headers,
+	/// run Chain::compact()
+	Compact,
+	/// Chain::compact() and then the action blocks
+	CompactThenBlocks,
 }
 
-pub fn replay(_ctx: &Ctx, _part: &str, _case: &Value) -> PResult {
+/// what the children need: everything as hex so they never touch the asset library
+#[derive(Clone, Debug, Serialize, Deserialize)]
+pub struct Scenario {
+	pub kind: String,
+	pub action: Action,
+	/// in-flight inputs
+	pub action_blocks: Vec<String>,
+	/// every block of the world (parents first) — offered again after the crash
+	pub all_blocks: Vec<String>,
+	/// hashes of the blocks the head may legitimately be after the crash:
+	/// the old head, the new head, and their ancestors
+	pub allowed_heads: Vec<String>,
+}
+
+fn hex_block(b: &Block) -> String {
+	ser::ser_vec(b, ProtocolVersion(1000)).expect("ser").to_hex()
+}
+
+fn unhex_block(s: &str) -> Block {
+	let bytes = grin_util::from_hex(s).expect("hex");
+	ser::deserialize(&mut &bytes[..], ProtocolVersion(1000), ser::DeserializationMode::default()).expect("block")
+}
+
+fn open_chain(dir: &Path) -> Result<Chain, String> {
+	Chain::init(
+		dir.to_string_lossy().to_string(),
+		std::sync::Arc::new(RecAdapter::default()),
+		genesis_block(),
+		grin_core::pow::verify_size,
+		false,
+		None,
+	)
+	.map_err(|e| format!("{:?}", e))
+}
+
+fn roots_string(chain: &Chain) -> String {
+	let tx = chain.txhashset();
+	let r = tx.read().roots();
+	match r {
+		Ok(r) => format!("{:?}/{:?}/{:?}/{:?}", r.output_roots.pmmr_root, r.output_roots.bitmap_root, r.rproof_root, r.kernel_root),
+		Err(e) => format!("roots error {:?}", e),
+	}
+}
+
+fn unspent_digest(chain: &Chain) -> String {
+	let mut v: Vec<Vec<u8>> = vec![];
+	let mut start = 1u64;
+	loop {
+		match chain.unspent_outputs_by_pmmr_index(start, 500, None) {
+			Ok((last, max, outs)) => {
+				for o in &outs {
+					v.push(o.commitment().0.to_vec());
+				}
+				if outs.is_empty() || last >= max {
+					break;
+				}
+				start = last + 1;
+			}
+			Err(e) => return format!("enum error {:?}", e),
+		}
+	}
+	v.sort();
+	let refs: Vec<&[u8]> = v.iter().map(|x| &x[..]).collect();
+	crate::refmmr::blake(&refs).to_vec().to_hex()
+}
+
+fn perform(chain: &Chain, sc: &Scenario) -> Result<(), String> {
+	let blocks: Vec<Block> = sc.action_blocks.iter().map(|h| unhex_block(h)).collect();
+	match sc.action {
+		Action::Blocks => {
+			for b in blocks {
+				chain.process_block(b, Options::NONE).map_err(|e| format!("{:?}", e))?;
+			}
+		}
+		Action::Headers => {
+			let hs: Vec<BlockHeader> = blocks.iter().map(|b| b.header.clone()).collect();
+			let sync_head = chain.header_head().map_err(|e| format!("{:?}", e))?;
+			chain.sync_block_headers(&hs, sync_head, Options::NONE).map_err(|e| format!("{:?}", e))?;
+		}
+		Action::Compact => chain.compact().map_err(|e| format!("{:?}", e))?,
+		Action::CompactThenBlocks => {
+			chain.compact().map_err(|e| format!("{:?}", e))?;
+			for b in blocks {
+				chain.process_block(b, Options::NONE).map_err(|e| format!("{:?}", e))?;
+			}
+		}
+	}
 	Ok(())
+}
+
+/// `gv child crash run <scenario.json> <dir>`: open, arm, perform (may die)
+/// `gv child crash check <scenario.json> <dir> <out.json>`: reopen and report
+pub fn child(args: &[String]) -> i32 {
+	init_global();
+	let sc: Scenario = match std::fs::read_to_string(&args[1]).ok().and_then(|s| serde_json::from_str(&s).ok()) {
+		Some(s) => s,
+		None => return 3,
+	};
+	let dir = PathBuf::from(&args[2]);
+	match args[0].as_str() {
+		"run" => {
+			grin_util::verif::arm(false);
+			let chain = match open_chain(&dir) {
+				Ok(c) => c,
+				Err(e) => {
+					eprintln!("run child: init failed: {}", e);
+					return 4;
+				}
+			};
+			grin_util::verif::reset();
+			grin_util::verif::arm(true);
+			let r = perform(&chain, &sc);
+			grin_util::verif::arm(false);
+			match r {
+				Ok(()) => 0,
+				Err(e) => {
+					eprintln!("run child: action failed: {}", e);
+					5
+				}
+			}
+		}
+		"check" => {
+			grin_util::verif::arm(false);
+			let out = PathBuf::from(&args[3]);
+			let mut rep = serde_json::Map::new();
+			let res = catch(|| {
+				let chain = match open_chain(&dir) {
+					Ok(c) => c,
+					Err(e) => {
+						rep.insert("init".into(), json!(format!("ERR {}", e)));
+						return;
+					}
+				};
+				rep.insert("init".into(), json!("ok"));
+				let head = chain.head().map(|t| (t.height, t.last_block_h.to_hex())).map_err(|e| format!("{:?}", e));
+				rep.insert("head".into(), json!(head));
+				rep.insert("header_head".into(), json!(chain.header_head().map(|t| (t.height, t.last_block_h.to_hex())).map_err(|e| format!("{:?}", e))));
+				rep.insert("validate".into(), json!(chain.validate(false).map_err(|e| format!("{:?}", e))));
+				// every best-chain block must be readable
+				let mut missing = vec![];
+				if let Ok(t) = chain.head() {
+					let tail_h = chain.tail().map(|t| t.height).unwrap_or(0);
+					let mut h = t.last_block_h;
+					loop {
+						let hdr = match chain.get_block_header(&h) {
+							Ok(x) => x,
+							Err(_) => {
+								missing.push(format!("header {}", h.to_hex()));
+								break;
+							}
+						};
+						if hdr.height < tail_h.max(1) {
+							break;
+						}
+						if chain.get_block(&h).is_err() {
+							missing.push(format!("block at {}", hdr.height));
+						}
+						if chain.get_block_sums(&h).is_err() {
+							missing.push(format!("sums at {}", hdr.height));
+						}
+						if hdr.height == 0 {
+							break;
+						}
+						h = hdr.prev_hash;
+					}
+				}
+				rep.insert("missing".into(), json!(missing));
+				rep.insert("unspent_before".into(), json!(unspent_digest(&chain)));
+				// re-deliver: the action again (compaction), then every block of the world
+				let mut redeliver_errors = vec![];
+				if sc.action == Action::Compact || sc.action == Action::CompactThenBlocks {
+					if let Err(e) = chain.compact() {
+						redeliver_errors.push(format!("compact: {:?}", e));
+					}
+				}
+				if sc.action == Action::Headers {
+					for hx in &sc.action_blocks {
+						let b = unhex_block(hx);
+						if let Err(e) = chain.process_block_header(&b.header, Options::NONE) {
+							redeliver_errors.push(format!("header h={}: {:?}", b.header.height, e));
+						}
+					}
+				}
+				rep.insert("tail_after_action".into(), json!(chain.tail().map(|t| t.height).map_err(|e| format!("{:?}", e))));
+				// offer every block of the world above the reopened head, parents first
+				// (recovery may have stepped back and deleted blocks; blocks at or
+				// below the reopened head are either present or behind the horizon)
+				let reopened_h = chain.head().map(|t| t.height).unwrap_or(0);
+				for hx in &sc.all_blocks {
+					let b = unhex_block(hx);
+					if b.header.height <= reopened_h {
+						continue;
+					}
+					if sc.action == Action::Headers && sc.action_blocks.contains(hx) {
+						continue; // header-only scenario: bodies of the fork were never delivered
+					}
+					match chain.process_block(b.clone(), Options::NONE) {
+						Ok(_) => {}
+						Err(grin_chain::Error::Unfit(_)) => {}
+						Err(e) => redeliver_errors.push(format!("block h={} {}: {:?}", b.header.height, b.hash().to_hex(), e)),
+					}
+				}
+				rep.insert("redeliver_errors".into(), json!(redeliver_errors));
+				rep.insert("final_head".into(), json!(chain.head().map(|t| (t.height, t.last_block_h.to_hex())).map_err(|e| format!("{:?}", e))));
+				rep.insert("final_header_head".into(), json!(chain.header_head().map(|t| (t.height, t.last_block_h.to_hex())).map_err(|e| format!("{:?}", e))));
+				rep.insert("final_roots".into(), json!(roots_string(&chain)));
+				rep.insert("final_unspent".into(), json!(unspent_digest(&chain)));
+				rep.insert("final_validate".into(), json!(chain.validate(false).map_err(|e| format!("{:?}", e))));
+			});
+			if let Err(f) = res {
+				rep.insert("panic".into(), json!(f.msg));
+			}
+			let _ = std::fs::write(&out, serde_json::to_string(&Value::Object(rep)).unwrap());
+			0
+		}
+		_ => 2,
+	}
+}
+
+// ------------------------------------------------------------------ scenarios
+
+#[derive(Clone, Debug, Serialize, Deserialize)]
+pub struct Recipe {
+	/// 0 extension, 1 losing fork block, 2 reorg with spends, 3 header-only reorg,
+	/// 4 compaction, 5 compaction then block
+	pub kind: u8,
+	pub on_base: bool,
+	/// blocks applied before the action (beyond the start state)
+	pub pre: Vec<RawBlock>,
+	/// the in-flight blocks
+	pub act: Vec<RawBlock>,
+}
+
+fn spendy_block(parent: u8, picks: Vec<u16>, kern: u8) -> RawBlock {
+	RawBlock {
+		parent,
+		cb_key: 0,
+		txs: picks
+			.into_iter()
+			.map(|p| RawTx {
+				ins: vec![p],
+				outs: vec![RawOut { kind: 0, amt: 1, key: 2 }, RawOut { kind: 0, amt: 0, key: 3 }],
+				fee: 1,
+				kern,
+				zero_offset: false,
+				chain_prev: false,
+			})
+			.collect(),
+		dt: 60,
+		diff: 1,
+		neg: Neg::None,
+		neg_pick: 0,
+	}
+}
+
+fn empty_block(parent: u8, cb_key: u8) -> RawBlock {
+	RawBlock {
+		parent,
+		cb_key,
+		txs: vec![],
+		dt: 60,
+		diff: 1,
+		neg: Neg::None,
+		neg_pick: 0,
+	}
+}
+
+/// the fixed scenarios of the statement
+pub fn fixed_recipes() -> Vec<Recipe> {
+	vec![
+		// plain extension with two spends (one recent, one old output)
+		Recipe {
+			kind: 0,
+			on_base: false,
+			pre: (0..8).map(|i| if i % 2 == 1 && i > 3 { spendy_block(0, vec![60000], 0) } else { empty_block(0, 0) }).collect(),
+			act: vec![spendy_block(0, vec![0, 65000], 0)],
+		},
+		// fork block that does not win
+		Recipe {
+			kind: 1,
+			on_base: false,
+			pre: (0..7).map(|i| if i == 5 { spendy_block(0, vec![0], 0) } else { empty_block(0, 0) }).collect(),
+			act: vec![spendy_block(102, vec![30000], 0)],
+		},
+		// reorg with spends on both sides: main has 2 spending blocks, the fork 3
+		Recipe {
+			kind: 2,
+			on_base: false,
+			pre: {
+				let mut v: Vec<RawBlock> = (0..6).map(|_| empty_block(0, 0)).collect();
+				v.push(spendy_block(0, vec![0], 0));
+				v.push(spendy_block(0, vec![0], 0));
+				v.push({
+					let mut b = spendy_block(102, vec![20000], 0);
+					b.cb_key = 1;
+					b
+				});
+				v.push({
+					let mut b = spendy_block(1, vec![40000], 0);
+					b.cb_key = 1;
+					b
+				});
+				v
+			},
+			act: vec![{
+				let mut b = spendy_block(1, vec![10000], 0);
+				b.cb_key = 1;
+				b
+			}],
+		},
+		// header-only reorg: headers of a longer fork arrive through sync_block_headers
+		Recipe {
+			kind: 3,
+			on_base: false,
+			pre: (0..6).map(|_| empty_block(0, 0)).collect(),
+			act: vec![empty_block(102, 1), empty_block(1, 1), empty_block(1, 1), empty_block(1, 1)],
+		},
+		// compaction of the 90-block base chain
+		Recipe {
+			kind: 4,
+			on_base: true,
+			pre: vec![],
+			act: vec![],
+		},
+		// compaction followed by a block with an old and a recent spend
+		Recipe {
+			kind: 5,
+			on_base: true,
+			pre: vec![],
+			act: vec![spendy_block(0, vec![0, 64000], 0)],
+		},
+	]
+}
+
+fn recipe_strategy() -> impl Strategy<Value = Recipe> {
+	(
+		0u8..6,
+		prop::collection::vec(raw_block(0), 6..12),
+		prop::collection::vec(raw_block(0), 1..3),
+		1u8..4,
+	)
+		.prop_map(|(kind, mut pre, mut act, d)| {
+			for b in pre.iter_mut() {
+				b.parent = 0;
+			}
+			match kind {
+				0 | 5 => {
+					act.truncate(1);
+					act[0].parent = 0;
+				}
+				1 => {
+					act.truncate(1);
+					act[0].parent = 100 + d;
+				}
+				2 => {
+					// a fork of d+1 blocks: all but the last are part of the prepared state
+					let mut fork: Vec<RawBlock> = (0..=d).map(|i| {
+						let mut b = act[i as usize % act.len()].clone();
+						b.parent = if i == 0 { 100 + d } else { 1 };
+						b.cb_key = 1;
+						b
+					}).collect();
+					let last = fork.pop().unwrap();
+					pre.extend(fork);
+					act = vec![last];
+				}
+				3 => {
+					act = (0..=d).map(|i| empty_block(if i == 0 { 100 + d } else { 1 }, 1)).collect();
+				}
+				_ => act.clear(),
+			}
+			Recipe {
+				kind,
+				on_base: kind >= 4,
+				pre,
+				act,
+			}
+		})
+}
+
+struct Prepared {
+	dir: PathBuf,
+	scenario: Scenario,
+}
+
+fn kind_name(k: u8) -> &'static str {
+	match k {
+		0 => "extension",
+		1 => "losing-fork-block",
+		2 => "reorg-with-spends",
+		3 => "header-only-reorg",
+		4 => "compaction",
+		_ => "compaction-then-block",
+	}
+}
+
+/// build the prepared directory and the scenario description
+fn prepare(ctx: &Ctx, r: &Recipe) -> Result<Prepared, Fail> {
+	init_thread();
+	let dir = ctx.scratch_dir("c09prep");
+	let (mut cb, mut w, mut head) = if r.on_base {
+		let b = base(ctx).map_err(|e| Fail::new("harness:base", e))?;
+		copy_dir(&b.dir, &dir).map_err(|e| Fail::new("harness:copy", e.to_string()))?;
+		let cb = ChainBox::open(&dir).map_err(|e| Fail::new("init-base-copy", e))?;
+		let w = clone_world(&b.world);
+		let h = w.nodes.len() - 1;
+		(cb, w, h)
+	} else {
+		let cb = ChainBox::open(&dir).map_err(|e| Fail::new("init-fresh", e))?;
+		let w = World::new(&cb.genesis, true);
+		(cb, w, 0)
+	};
+	for (i, raw) in r.pre.iter().enumerate() {
+		let built = w.build(cb.c(), raw, head).map_err(|e| Fail::new("builder", format!("pre {}: {}", i, e)))?;
+		let Ok(m) = built.verdict.clone() else { continue };
+		match cb.c().process_block(built.block.clone(), Options::NONE) {
+			Ok(tip) => {
+				let n = w.push(&built, m);
+				if tip.is_some() {
+					head = n;
+				}
+			}
+			Err(e) => return Err(Fail::new("valid-block-rejected", format!("pre {}: {}", i, err_name(&e)))),
+		}
+	}
+	let old_head = head;
+	// build the action blocks on a scratch copy so that the prepared state stays "before"
+	let mut action_blocks = vec![];
+	let mut new_nodes: Vec<usize> = vec![];
+	if !r.act.is_empty() {
+		let scratch = ctx.scratch_dir("c09build");
+		cb.close();
+		copy_dir(&dir, &scratch).map_err(|e| Fail::new("harness:copy", e.to_string()))?;
+		let sb = ChainBox::open(&scratch).map_err(|e| Fail::new("init-copy", e))?;
+		let mut h2 = head;
+		for (i, raw) in r.act.iter().enumerate() {
+			let built = w.build(sb.c(), raw, h2).map_err(|e| Fail::new("builder", format!("act {}: {}", i, e)))?;
+			let Ok(m) = built.verdict.clone() else {
+				return Err(Fail::new("harness:bad-recipe", "action block invalid in model"));
+			};
+			match sb.c().process_block(built.block.clone(), Options::NONE) {
+				Ok(tip) => {
+					let n = w.push(&built, m);
+					new_nodes.push(n);
+					if tip.is_some() {
+						h2 = n;
+					}
+					action_blocks.push(hex_block(&built.block));
+				}
+				Err(e) => return Err(Fail::new("valid-block-rejected", format!("act {}: {}", i, err_name(&e)))),
+			}
+		}
+		drop(sb);
+	} else {
+		cb.close();
+	}
+	// allowed heads: ancestors of the old head and of every new node
+	let mut allowed: BTreeSet<String> = BTreeSet::new();
+	let mut tips = vec![old_head];
+	tips.extend(new_nodes.iter().cloned());
+	for t in tips {
+		let mut a = t;
+		loop {
+			allowed.insert(w.nodes[a].hash().to_hex());
+			if a == 0 {
+				break;
+			}
+			a = w.nodes[a].parent;
+		}
+	}
+	let all_blocks: Vec<String> = w.nodes.iter().skip(1).map(|n| hex_block(&n.block)).collect();
+	let scenario = Scenario {
+		kind: kind_name(r.kind).to_string(),
+		action: match r.kind {
+			3 => Action::Headers,
+			4 => Action::Compact,
+			5 => Action::CompactThenBlocks,
+			_ => Action::Blocks,
+		},
+		action_blocks,
+		all_blocks,
+		allowed_heads: allowed.into_iter().collect(),
+	};
+	std::mem::forget(cb); // keep the directory
+	Ok(Prepared { dir, scenario })
+}
+
+fn run_child(args: &[&str], envs: &[(&str, String)]) -> std::io::Result<std::process::ExitStatus> {
+	let exe = std::env::current_exe()?;
+	let mut c = Command::new(exe);
+	c.arg("child").arg("crash").args(args);
+	for (k, v) in envs {
+		c.env(k, v);
+	}
+	c.stdin(std::process::Stdio::null()).stdout(std::process::Stdio::null()).stderr(std::process::Stdio::null());
+	c.status()
+}
+
+fn read_json(p: &Path) -> Option<Value> {
+	std::fs::read_to_string(p).ok().and_then(|s| serde_json::from_str(&s).ok())
+}
+
+/// enumerate every crash point of one scenario
+pub fn sweep(ctx: &Ctx, r: &Recipe, counting: bool) -> PResult {
+	let ev = &ctx.ev;
+	let prep = prepare(ctx, r)?;
+	let work = ctx.scratch_dir("c09work");
+	let scf = work.join("scenario.json");
+	std::fs::write(&scf, serde_json::to_string(&prep.scenario).unwrap()).map_err(|e| Fail::new("harness:io", e.to_string()))?;
+	// reference (uninterrupted) run with a trace
+	let refdir = work.join("ref");
+	copy_dir(&prep.dir, &refdir).map_err(|e| Fail::new("harness:copy", e.to_string()))?;
+	let trace = work.join("trace.txt");
+	let st = run_child(&["run", scf.to_str().unwrap(), refdir.to_str().unwrap()], &[("GRIN_VERIF_CRASH_TRACE", trace.to_string_lossy().to_string()), ("GRIN_VERIF_CRASH_AT", "0".into())]).map_err(|e| Fail::new("harness:spawn", e.to_string()))?;
+	if !st.success() {
+		return Err(Fail::new("uninterrupted-run-failed", format!("{}: the uninterrupted action failed: {:?}", prep.scenario.kind, st)));
+	}
+	let labels: Vec<String> = std::fs::read_to_string(&trace).unwrap_or_default().lines().map(|l| l.splitn(2, ' ').nth(1).unwrap_or("").to_string()).collect();
+	let n_points = labels.len();
+	let refout = work.join("ref.json");
+	run_child(&["check", scf.to_str().unwrap(), refdir.to_str().unwrap(), refout.to_str().unwrap()], &[]).map_err(|e| Fail::new("harness:spawn", e.to_string()))?;
+	let Some(reference) = read_json(&refout) else {
+		return Err(Fail::new("harness:ref-report", "no reference report"));
+	};
+	if reference["init"] != json!("ok") || !reference["final_validate"]["Ok"].is_null() && reference["final_validate"].get("Err").is_some() {
+		return Err(Fail::new("uninterrupted-run-invalid", format!("reference run does not reopen/validate: {}", reference)));
+	}
+	let _ = std::fs::remove_dir_all(&refdir);
+	if counting {
+		ev.class(&format!("scenario:{}", prep.scenario.kind));
+		ev.class_n("crash_points_total", n_points as u64);
+		ev.sample(&prep.scenario.kind, || json!({"kind": prep.scenario.kind, "points": n_points, "labels": labels.iter().take(40).collect::<Vec<_>>()}));
+	}
+	// all points, 16 at a time
+	let fails: std::sync::Mutex<Vec<(usize, Fail)>> = std::sync::Mutex::new(vec![]);
+	let next = std::sync::atomic::AtomicUsize::new(1);
+	std::thread::scope(|sc| {
+		for _ in 0..16usize.min(n_points.max(1)) {
+			sc.spawn(|| loop {
+				let n = next.fetch_add(1, std::sync::atomic::Ordering::SeqCst);
+				if n > n_points {
+					break;
+				}
+				let d = work.join(format!("p{}", n));
+				let out = work.join(format!("p{}.json", n));
+				let r = (|| -> PResult {
+					copy_dir(&prep.dir, &d).map_err(|e| Fail::new("harness:copy", e.to_string()))?;
+					let st = run_child(&["run", scf.to_str().unwrap(), d.to_str().unwrap()], &[("GRIN_VERIF_CRASH_AT", n.to_string())]).map_err(|e| Fail::new("harness:spawn", e.to_string()))?;
+					if st.success() {
+						return Err(Fail::new("harness:no-crash", format!("point {} was not reached", n)));
+					}
+					run_child(&["check", scf.to_str().unwrap(), d.to_str().unwrap(), out.to_str().unwrap()], &[]).map_err(|e| Fail::new("harness:spawn", e.to_string()))?;
+					let Some(rep) = read_json(&out) else {
+						return Err(Fail::new("recovery-process-died", "the reopening process died without a report".to_string()));
+					};
+					judge(&prep.scenario, &reference, &rep).map_err(|f| {
+						Fail::new(
+							f.sig,
+							format!(
+								"{} [reopened head {} header_head {} tail {} validate {}]",
+								f.msg,
+								rep["head"],
+								rep["header_head"],
+								rep["tail_after_action"],
+								rep["validate"]
+							),
+						)
+					})
+				})();
+				let _ = std::fs::remove_dir_all(&d);
+				let _ = std::fs::remove_file(&out);
+				if counting {
+					ev.eval();
+					let inside = n > 1 && n < n_points;
+					if inside {
+						ev.nontrivial(&(prep.scenario.kind.clone(), labels[n - 1].clone(), n));
+					}
+				}
+				if let Err(f) = r {
+					let before = if n >= 2 { labels[n - 2].as_str() } else { "start" };
+					let at = labels[n - 1].as_str();
+					// window = the file group most recently touched at or before the crash point
+					let window = labels[..n].iter().rev().find_map(|l| file_group(l)).unwrap_or("before-any-file");
+					let sig = format!("{}|crash-while-persisting:{}|{}", prep.scenario.kind, window, f.sig);
+					fails.lock().unwrap().push((n, Fail::new(sig, format!("crash at point {} of {} ('{}'), last completed '{}': {}", n, n_points, at, before, f.msg))));
+				}
+			});
+		}
+	});
+	let _ = std::fs::remove_dir_all(&work);
+	let _ = std::fs::remove_dir_all(&prep.dir);
+	let mut fails = fails.into_inner().unwrap();
+	fails.sort_by_key(|x| x.0);
+	// known findings are keyed by (scenario, last completed label, crash label, failure class)
+	if let Ok(p) = std::env::var("GV_C09_COLLECT") {
+		use std::io::Write;
+		if let Ok(mut fh) = std::fs::OpenOptions::new().create(true).append(true).open(p) {
+			for (n, f) in &fails {
+				let _ = writeln!(fh, "{}\t{}\t{}", f.sig, n, truncate(&f.msg, 300).replace('\n', " "));
+			}
+		}
+	}
+	let mut unknown: Vec<Fail> = vec![];
+	for (_, f) in fails {
+		if ctx.known_hit(&f.sig) {
+			continue;
+		}
+		if !unknown.iter().any(|u| u.sig == f.sig) {
+			unknown.push(f);
+		}
+	}
+	if unknown.is_empty() {
+		return Ok(());
+	}
+	// one failure per distinct signature; the first is returned, the others are attached
+	let mut first = unknown.remove(0);
+	if !unknown.is_empty() {
+		first.msg = format!("{} || further distinct failing points of this scenario: {}", first.msg, unknown.iter().map(|u| u.sig.clone()).collect::<Vec<_>>().join(" ;; "));
+	}
+	Err(first)
+}
+
+/// which group of files a crash-point label refers to
+fn file_group(label: &str) -> Option<&'static str> {
+	for (pat, g) in [
+		("header_head/", "header-mmr-files"),
+		("header_extending", "header-mmr-files"),
+		("output/", "txhashset-files"),
+		("rangeproof/", "txhashset-files"),
+		("kernel/", "txhashset-files"),
+		("txhashset.extending", "txhashset-files"),
+	] {
+		if label.contains(pat) {
+			return Some(g);
+		}
+	}
+	None
+}
+
+fn judge(sc: &Scenario, reference: &Value, rep: &Value) -> PResult {
+	if let Some(p) = rep.get("panic") {
+		return Err(Fail::new("recovery-panicked", format!("{}", p)));
+	}
+	let init = rep["init"].as_str().unwrap_or("?");
+	if init != "ok" {
+		// class = error variant + message words, without hashes/numbers
+		let slug: String = init
+			.trim_start_matches("ERR ")
+			.split(|c: char| !c.is_ascii_alphabetic())
+			.filter(|w| !w.is_empty())
+			.filter(|w| !(w.len() >= 8 && w.chars().all(|c| c.is_ascii_hexdigit())))
+			.take(7)
+			.collect::<Vec<_>>()
+			.join("-");
+		// cut after the word "hash" (what follows is a block hash fragment)
+		let slug = match slug.find("-hash") {
+			Some(i) => slug[..i + 5].to_string(),
+			None => slug,
+		};
+		return Err(Fail::new(format!("init-fails:{}", slug), format!("Chain::init on the directory left by the crash: {}", init)));
+	}
+	let head = &rep["head"]["Ok"];
+	let hh = head.get(1).and_then(|x| x.as_str()).unwrap_or("");
+	if !sc.allowed_heads.iter().any(|a| a == hh) {
+		return Err(Fail::new("head-not-on-accepted-chain", format!("reopened head {} is neither the old head, the new head nor an ancestor", head)));
+	}
+	if rep["validate"].get("Err").is_some() {
+		return Err(Fail::new("reopened-state-invalid", format!("validate(false) after reopen: {}", rep["validate"]["Err"])));
+	}
+	if rep["missing"].as_array().map(|a| !a.is_empty()).unwrap_or(false) {
+		return Err(Fail::new("best-chain-data-missing", format!("best-chain records missing after reopen: {}", rep["missing"])));
+	}
+	if rep["redeliver_errors"].as_array().map(|a| !a.is_empty()).unwrap_or(true) {
+		return Err(Fail::new("redelivery-rejected", format!("re-delivering the chain above the reopened head failed: {}", rep["redeliver_errors"])));
+	}
+	for k in ["final_head", "final_roots", "final_unspent"] {
+		if rep[k] != reference[k] {
+			return Err(Fail::new(format!("differs-from-uninterrupted:{}", k), format!("{} after re-delivery {} != uninterrupted {}", k, rep[k], reference[k])));
+		}
+	}
+	if sc.action == Action::Headers && rep["final_header_head"] != reference["final_header_head"] {
+		return Err(Fail::new("differs-from-uninterrupted:final_header_head", format!("{} vs {}", rep["final_header_head"], reference["final_header_head"])));
+	}
+	if rep["final_validate"].get("Err").is_some() {
+		return Err(Fail::new("final-state-invalid", format!("validate(false) after re-delivery: {}", rep["final_validate"]["Err"])));
+	}
+	Ok(())
+}
+
+pub fn run(ctx: &Ctx) -> HResult<()> {
+	init_global();
+	let ev = &ctx.ev;
+	ev.rule("scenarios (6 fixed: plain extension, losing fork block, reorg with spends on both sides, header-only reorg, compaction, compaction then block; plus proptest-generated variations of contents, fork depth and spend ages); for each scenario EVERY durable step (file truncate/write/fsync, temp-file rename, file replace, LMDB commit incl. nested, MMR syncs) is enumerated: a child process dies at step n (abort, nothing flushed), a second child reopens with Chain::init, validates, checks best-chain records, re-delivers the scenario's chain above the reopened head and is compared with the uninterrupted run; non-trivial = crash point strictly inside the scenario's persist sequence; distinct by (scenario kind, label, ordinal)");
+	ev.assume("crash = process death at an instrumented point: data already handed to the kernel survives, user-space buffers do not; torn sectors / lost fsyncs are out of scope");
+	ev.set_exhaustive(true);
+	base(ctx).map_err(HarnessError)?;
+	let mut recipes = fixed_recipes();
+	let extra = ctx.n(6, 60);
+	for k in 0..extra {
+		recipes.push(sample_one(ctx.derive_seed("recipe", k), &recipe_strategy()));
+	}
+	for (i, r) in recipes.iter().enumerate() {
+		match catch(|| sweep(ctx, r, true)) {
+			Ok(Ok(())) => {}
+			Ok(Err(f)) | Err(f) => {
+				if f.sig.starts_with("harness:") {
+					ev.class("scenarios_skipped_harness");
+					eprintln!("scenario {} skipped: {} {}", i, f.sig, f.msg);
+					continue;
+				}
+				ctx.report("sweep", &f.sig, serde_json::to_value(r).unwrap(), &f.msg);
+			}
+		}
+	}
+	Ok(())
+}
+
+pub fn replay(ctx: &Ctx, part: &str, case: &Value) -> PResult {
+	init_global();
+	match part {
+		"sweep" => {
+			base(ctx).map_err(|e| Fail::new("harness:base", e))?;
+			let r: Recipe = serde_json::from_value(case.clone()).map_err(|e| Fail::new("harness:replay-parse", e.to_string()))?;
+			sweep(ctx, &r, false)
+		}
+		_ => Ok(()),
+	}
 }
